@@ -580,6 +580,10 @@ def range_constraints(atom):
         if all(INT_RANGES.get(TYPES.get(f) or ('usize' if f[0] == 'len' else ''), (-1, 0))[0] >= 0 for f in atom[1]):
             out.append((((atom, -1),), 0))
         return out
+    if atom[0] == 'discr' and ('#nvariants', atom[1]) in TYPES:
+        out.append((((atom, -1),), 0))
+        out.append((((atom, 1),), -(TYPES[('#nvariants', atom[1])] - 1)))
+        return out
     if atom[0] == 'len':
         # Vec/slice lengths never exceed isize::MAX (language guarantee for non-zero-sized elements)
         out.append((((atom, -1),), 0))
